@@ -226,7 +226,7 @@ def main(argv=None):
         if r.get('status') == 'error':
             errors.append(f"{r['id']}: {r.get('error')}")
         for f in r.get('failures', []):
-            if any(kf.get('check') == r['id'] and kf.get('status') == 'known' and kf.get('key') == f.get('key')
+            if any(_same_check(kf.get('check'), r['id']) and kf.get('status') == 'known' and kf.get('key') == f.get('key')
                    for kf in known):
                 continue
             payload = {'property': prop, 'kind': 'bounded', 'check': r['id'], 'failure': f}
@@ -241,7 +241,7 @@ def main(argv=None):
         # a finite (ground) obligation set counts as ONE obligation, discharged iff every
         # enumerated instance held; the instance counts stay inside the 'ground' block
         unknown = [f for f in r.get('failures', [])
-                   if not any(kf.get('check') == r['id'] and kf.get('status') == 'known' and kf.get('key') == f.get('key')
+                   if not any(_same_check(kf.get('check'), r['id']) and kf.get('status') == 'known' and kf.get('key') == f.get('key')
                               for kf in known)]
         r['known_findings_excluded'] = [f.get('key') for f in r.get('failures', []) if f not in unknown]
         if r.get('count_each'):
@@ -303,10 +303,15 @@ def main(argv=None):
     return exit_code
 
 
+def _same_check(known, rid) -> bool:
+    """A check split into numbered chunks (name_0 .. name_N) shares the known findings of `name`."""
+    return known == rid or (bool(known) and rid.startswith(known + '_') and rid[len(known) + 1:].isdigit())
+
+
 def replay_known(mod, k) -> bool:
     """True if the recorded witness still violates."""
     if k.get('check'):
-        b = next(b for b in list(getattr(mod, 'BOUNDED', [])) + list(getattr(mod, 'GROUND', [])) if b.id == k['check'])
+        b = next(b for b in list(getattr(mod, 'BOUNDED', [])) + list(getattr(mod, 'GROUND', [])) if _same_check(k['check'], b.id))
         return not b.replay({'failure': k['witness']})
     from pyvc.contract import native_post
     c = next(c for c in mod.CONTRACTS if c.id == k['contract'])
